@@ -774,6 +774,52 @@ fn k_below_other() {
 
 
 // ------------------------------------------------------------------------------------------
+// C01 with the real std::time clock: the blocked-time accounting of BlockingEnd
+// ------------------------------------------------------------------------------------------
+fn any_std_instant() -> std::time::Instant {
+    #[repr(C)]
+    struct TS {
+        secs: i64,
+        nanos: u32,
+    }
+    let secs: i64 = kani::any();
+    let nanos: u32 = kani::any();
+    kani::assume(nanos < 1_000_000_000 && secs >= 0);
+    unsafe { core::mem::transmute::<TS, std::time::Instant>(TS { secs, nanos }) }
+}
+/// `process_event(BlockingEnd)` with `std::time::{Instant, Duration}`: any accumulated blocked
+/// time, any (also backwards) instants. Totality (C01): no panic, no overflow.
+#[kani::proof]
+#[kani::unwind(3)]
+fn k_blocking_end_std() {
+    let t0 = any_std_instant();
+    let none: &[Machine] = &[];
+    let secs: u64 = kani::any();
+    let nanos: u32 = kani::any();
+    kani::assume(nanos < 1_000_000_000);
+    let mut f: Framework<&[Machine], Tape, std::time::Instant> = Framework {
+        current_time: any_std_instant(),
+        rng: Tape { w32: [0; T32], w64: [0; T64], c32: 0, c64: 0 },
+        actions: Vec::new(),
+        machines: none,
+        runtime: Vec::new(),
+        max_padding_frac: 0.0,
+        normal_sent_packets: 0,
+        padding_sent_packets: 0,
+        max_blocking_frac: 0.0,
+        blocking_duration: std::time::Duration::new(secs, nanos),
+        blocking_started: any_std_instant(),
+        blocking_active: kani::any(),
+        signal_pending: None,
+        framework_start: t0,
+    };
+    f.process_event(&TriggerEvent::BlockingEnd);
+    assert!(!f.blocking_active, "C03: BlockingEnd ends the accounted blocking");
+    kani::cover!(f.blocking_duration.as_secs() > secs, "blocked time accumulated");
+    core::mem::forget(f);
+}
+
+// ------------------------------------------------------------------------------------------
 // Framework::new: fractions judged, every machine judged, the initial state satisfies Inv and the
 // limit of each machine's first state is sampled for THAT machine (C12, C01, C07(a))
 // ------------------------------------------------------------------------------------------
